@@ -137,3 +137,37 @@ def k3(res, tier, seed, tag="k3", n_quick=40, n_thorough=400):
         res.broke("correspondence-error", "K3", e)
     for i in fails[:5]:
         res.broke("correspondence", "K3 " + meta[i]["kind"], meta[i])
+
+
+def k20(res, tier, seed, tag="k20"):
+    """K20: Model/Driver.v months_driver vs the month loop of ISIMIP.apply_location (running_window_mode=False) with a probe
+    step pipeline: series of 1..800 days, any start date, sub-annual series with months missing, look-alike calendars."""
+    import ibicus.debias as D
+    from ibicus.utils import month
+    r = C.rng_for(seed, tag)
+    n = 12 if tier == "quick" else 120
+    cc = C.CoqCases(tag, ["NP", "QL", "Grid", "Driver", "GridCorr", "DriverCorr", "CorrBase"], per_file=6)
+    meta = []
+    class P(D.ISIMIP):
+        def _apply_on_window(self, obs_hist, cm_hist, cm_future, **kw): return _probe(obs_hist, cm_hist, cm_future)
+    with warnings.catch_warnings():
+        warnings.simplefilter("ignore")
+        d = P.from_variable("tas", running_window_mode=False)
+    for i in range(n):
+        case = gen_case(r, "isimip", small=(i % 3 != 2))
+        tO, tH, tF = [dates(s_, n_) for s_, n_ in zip(case["start"], case["n"])]
+        with warnings.catch_warnings():
+            warnings.simplefilter("ignore")
+            try:
+                out = d.apply_location(case["obs"], case["hist"], case["fut"], time_obs=tO, time_cm_hist=tH, time_cm_future=tF)
+            except Exception as e:
+                res.broke("correspondence-error", "K20 implementation raised", dict(start=case["start"], n=case["n"], error=repr(e)[:300])); continue
+        cc.add("agree_series (run_months %s %s %s %s %s %s) (Some %s)" % (C.zl(month(tO)), C.zl(month(tH)), C.zl(month(tF)), series(case["obs"]), series(case["hist"]), series(case["fut"]), series(out)))
+        m = dict(kind="isimip-months", start=case["start"], n=case["n"])
+        meta.append(m); res.case(("K20", case["n"][2] > 366, len(set(month(tF))) < 12), sample=m if len(res.samples) < 5 else None)
+    fails, errors = cc.run()
+    res.components["K20 Model/Driver.v months_driver vs ISIMIP.apply_location month loop"] = dict(cases=len(cc.cases), disagreements=len(fails), errors=len(errors))
+    for e in errors[:3]:
+        res.broke("correspondence-error", "K20", e)
+    for i in fails[:5]:
+        res.broke("correspondence", "K20 isimip-months", meta[i])
